@@ -465,6 +465,16 @@ func caseAsm(t *testing.T, tp *simrt.Tape, c *Ctx) (res Result) {
 		}
 	}
 
+	if tp.Draw("asm.decoy", 3) == 0 {
+		// an earlier assembly of the same text under another configuration
+		// must not influence this one
+		dc := cfg
+		dc.CoreSize = gi.Address([]uint64{8000, 800, 80, 8192, 55440, 7}[tp.Draw("asm.decoy.size", 6)])
+		dc.ReadLimit, dc.WriteLimit, dc.Length, dc.Distance = dc.CoreSize, dc.CoreSize, min(dc.CoreSize, 100), 0
+		dc.Mode = []gi.SimulatorMode{gi.ICWS94, gi.ICWS88}[tp.Draw("asm.decoy.mode", 2)]
+		runAsm(t, delivered, simrt.ReaderPlan{ErrAt: -1}, simrt.ReplayTape(nil), dc)
+		res.stat("probe.decoy-call-with-other-config", 1)
+	}
 	// baseline: whole buffer in one read, lowest-numbered runnable task first,
 	// sorted map order
 	base := runAsm(t, delivered, simrt.ReaderPlan{ErrAt: -1}, simrt.ReplayTape(nil), cfg)
